@@ -247,7 +247,9 @@ void h_read_length_value_func(void)
 	ones = 0;
 	for (k = 0; k < 12; k++) { if (ones == k && VG_SB(cur0 + 3 + k, 1u) == 1) ones = k + 1; }
 	__CPROVER_assume(ones < 12);                       /* bound of this group: unary extension of at most 11 ones */
+	vg_eof_run = 0; vg_eof_limit = 3;                  /* C13: at most 3 consecutive end-of-input answers within this call */
 	ret = read_length_value(&vg_dec);
+	vg_eof_limit = 0;
 	if (ret >= 0) {
 		__CPROVER_assert(v3 < 7 ? (ret == (int) v3 && VG_CUR(&vg_dec.bit_stream_reader) == cur0 + 3)
 		                        : (ret == 7 + (int) ones && VG_CUR(&vg_dec.bit_stream_reader) == cur0 + 3 + ones + 1),
